@@ -7,6 +7,7 @@ import json
 import multiprocessing as mp
 import os
 import shutil
+import signal
 import sys
 import tempfile
 import time
@@ -20,6 +21,14 @@ EVID_DIR = os.path.join(ROOT, "evidence")
 REPLAY_DIR = os.path.join(ROOT, "replays")
 KNOWN = os.path.join(ROOT, "known_findings.json")
 MAX_EVENTS_PER_FILE = 25000
+
+
+class CaseTimeout(BaseException):
+    pass
+
+
+def _case_alarm(signum, frame):
+    raise CaseTimeout()
 
 
 def _exec_job(arg):
@@ -53,12 +62,19 @@ def _exec_job(arg):
     for case in (job["cases"] if job.get("kind") == "_replay" else mod.expand(job)):
         cid = rec.case(case)
         n0 = len(rec.events)
+        signal.signal(signal.SIGALRM, _case_alarm)       # watchdog: a library call that never returns must not hang the check
+        signal.alarm(getattr(mod, "CASE_TIMEOUT", 120))
         try:
             nt = mod.run_case(case, rec, cid)
+        except CaseTimeout:
+            rec.ev("Raised", cid, what="case did not finish within the watchdog in %s" % drv, cls="CaseTimeout", ve=False)
+            nt = True
         except Exception as exc:  # noqa: BLE001 - an exception escaping the library on an input the driver built as valid
             rec.ev("Raised", cid, what="unexpected exception in %s" % drv, cls=type(exc).__name__,
                    ve=isinstance(exc, ValueError))
             nt = True
+        finally:
+            signal.alarm(0)
         ncases += 1
         if nt:
             nontriv.add(hashlib.sha1(json.dumps(case, sort_keys=True).encode()).hexdigest()[:16])
